@@ -103,6 +103,16 @@ theorem extracted_defaults :
       [34, 103, 105, 116, 104, 117, 98, 46, 99, 111, 109, 47, 115, 116, 97, 99, 107, 117, 115, 47, 103, 111, 104, 116, 34]] ∧
     Gen.defaultPackage = [109, 97, 105, 110] := by decide
 
+/-- **Import and Go lines end at a carriage return as they do at a line feed** (stop sets as extracted from
+lexers.go on this run): the text of an import, single or grouped, never carries the `\r` of a CRLF line
+end, so the textual comparison that removes duplicates sees the same text in both line-end styles. -/
+theorem import_text_stops_at_cr :
+    (10 ∈ Gen.lexImportStart_acceptUntil1 ∧ 13 ∈ Gen.lexImportStart_acceptUntil1) ∧
+    (10 ∈ Gen.lexImports_acceptUntil0 ∧ 13 ∈ Gen.lexImports_acceptUntil0) ∧
+    (10 ∈ Gen.lexImports_skipRun0 ∧ 13 ∈ Gen.lexImports_skipRun0) ∧
+    (10 ∈ Gen.lexImports_skipRun1 ∧ 13 ∈ Gen.lexImports_skipRun1) ∧
+    (10 ∈ Gen.lexGoCode_acceptUntil0 ∧ 13 ∈ Gen.lexGoCode_acceptUntil0) := by decide
+
 -- PLANNED: lossless outer lexer — the concatenation of goCode/newLine literals equals the input minus template bodies, package and import lines
 -- KNOWN (recorded finding): `package …` / `import …` at column 0 inside a raw string or block comment is hoisted
 
